@@ -155,7 +155,7 @@ func (c *TextLayout) ToBytes(e *Event) []byte {
 	enc.AppendEncoderEnd()
 
 	buf.WriteByte('\n')
-	return buf.Bytes()
+	return bytes.Clone(buf.Bytes()) // buf goes back to the pool; the caller must own its bytes
 }
 
 // JSONLayout formats a log event as a structured JSON object.
@@ -186,5 +186,5 @@ func (c *JSONLayout) ToBytes(e *Event) []byte {
 	enc.AppendEncoderEnd()
 
 	buf.WriteByte('\n')
-	return buf.Bytes()
+	return bytes.Clone(buf.Bytes()) // buf goes back to the pool; the caller must own its bytes
 }
